@@ -3,6 +3,19 @@
 import json, os, re, sys
 root = os.path.dirname(os.path.dirname(os.path.abspath(__file__)))
 seeds = json.load(open(os.path.join(root, 'tools', 'seeds.json')))
+def suite_summary(suite):
+    if not suite:
+        return 'not run'
+    oks = len(re.findall(r'^ok', suite, re.M))
+    failed = sorted(set(re.findall(r'^--- FAIL: (\S+)', suite, re.M)))
+    pkgfail = re.findall(r'^FAIL\t(\S+)', suite, re.M)
+    if not failed and not pkgfail:
+        return '%d packages ok, none failing' % oks
+    rer = re.findall(r'^rerun: (ok|FAIL|--- FAIL)', suite, re.M)
+    if failed and rer and all(x == 'ok' for x in rer):
+        return '%d packages ok; %s failed in the full run on a loaded machine and passed when re-run alone' % (oks, ', '.join(failed))
+    return '%d packages ok; failing: %s %s (see suite.log)' % (oks, ', '.join(failed), ' '.join(pkgfail))
+
 for name, s in seeds.items():
     d = os.path.join(root, 'seeded', name)
     if not os.path.isdir(d):
@@ -28,7 +41,7 @@ for name, s in seeds.items():
         'demonstration': {'file': s.get('demo', 'seeded_demo_test.go'),
                           'without_change': (rd('demo_without.log') or '').splitlines()[-1:] ,
                           'with_change': (rd('demo_with.log') or '').splitlines()[-2:]},
-        'existing_suite_with_change': ('%d packages ok, %d failing' % (len(re.findall(r'^ok', suite, re.M)), len(re.findall(r'^(FAIL|--- FAIL)', suite, re.M)))) if suite else 'not run',
+        'existing_suite_with_change': suite_summary(suite),
         'what_i_ran': ['tools/seed_eval.sh (scratch worktree /tmp/wt-main at /repo HEAD: demo test without the change, apply patch, go build ./..., demo test with the change, then VERIF_REPO=/tmp/wt-main ./check <id>)',
                        'tools/seed_suite.sh (go test -vet=off -count=1 ./... with the change applied, hooks off)'],
         'checks': checks,
